@@ -6,6 +6,7 @@ import (
 	"fmt"
 	"sort"
 	"strings"
+	"time"
 
 	"github.com/tikv/pd/server"
 	"github.com/tikv/pd/server/config"
@@ -28,6 +29,9 @@ type env struct {
 	caseNo  int
 	seen    map[string]bool // violation keys already reported (witness minimisation happens once)
 	tainted bool            // running phases: served and stored are known to differ (lost-ack / reported violation)
+	// exploration only (never a verdict): how long a participant of an in-flight run may make no
+	// progress before it is taken to be waiting for the parked update
+	midWait, blockedWait, settle time.Duration
 }
 
 // step is one update request: a direct setter call or an HTTP POST.
@@ -426,10 +430,14 @@ func (e *env) directStep(c *call) *step {
 // threeWays executes c from the current state with the config write failing before it is sent,
 // with its acknowledgement lost, and unfaulted; the unfaulted outcome becomes the next state.
 func (e *env) threeWays(c *call) {
+	e.r.Count("setter_calls", 1)
+	e.threeWaysStep(e.directStep(c))
+}
+
+// threeWaysStep is threeWays for any request (the request is re-issued for every fault mode).
+func (e *env) threeWaysStep(step *step) {
 	e.caseNo++
 	st0 := e.capture()
-	step := e.directStep(c)
-	e.r.Count("setter_calls", 1)
 	if step.Out {
 		e.r.Count("out_of_domain_inputs_offered", 1)
 	}
@@ -439,7 +447,7 @@ func (e *env) threeWays(c *call) {
 		res := e.exec(step, mode)
 		e.judge(step, res)
 		if e.caseNo%400 == 7 && mode == kvx.NoFault {
-			e.r.Sample(map[string]interface{}{"phase": e.phase, "case": e.caseNo, "call": c, "result": res})
+			e.r.Sample(map[string]interface{}{"phase": e.phase, "case": e.caseNo, "call": step.Desc, "result": res})
 		}
 		if mode == kvx.NoFault && !res.Accepted {
 			// a refused update must not leak into the next case even if an oracle just fired
